@@ -1611,8 +1611,46 @@ class Executor:
     if ka.name != kb.name:
       self.oos(f'equality between {ka.name} and {kb.name}', node)
     if isinstance(a, (VList, VDict)):
-      return ka.eq(a, b)
+      return self.container_eq(a, b, ka)
     return ka.box(a) == kb.box(b)
+
+  def container_eq(self, a, b, kind):
+    """Python's `==` on two lists / dicts: same shape and pairwise `==` of the elements --
+    which for opaque elements is the elements' own __eq__ (1 == True, two references to the
+    same configurable under different scopes, ...), NOT identity.  Identical elements are equal
+    (the container comparison short-cuts on `is`)."""
+    ek = kind.val if isinstance(a, VDict) else kind.elem
+
+    def has_val(k):
+      if k is KVal:
+        return True
+      for attr in ('elem', 'val', 'key', 'inner'):
+        sub = getattr(k, attr, None)
+        if sub is not None and sub is not k and has_val(sub):
+          return True
+      for sub in getattr(k, 'items', None) or []:
+        if has_val(sub):
+          return True
+      for sub in (getattr(k, 'fields', None) or {}).values():
+        if has_val(sub):
+          return True
+      return False
+    if not has_val(ek):
+      return kind.eq(a, b)                   # elements compare by value: extensional equality
+    if ek is KVal:
+      pyeq = lambda x, y: z3.Or(x == y, sym.ufun('val_eq', sym.Val, sym.Val, sym.BoolS)(x, y))
+    else:
+      rel = sym.ufun('py_eq_' + sym._sort_name(ek.name), ek.sort(), ek.sort(), sym.BoolS)
+      pyeq = lambda x, y: z3.Or(x == y, rel(x, y))
+    if isinstance(a, VDict):
+      k = z3.Const('k!ceq', kind.key.sort())
+      return z3.And(a.dom == b.dom, sym.forall(
+          [k], z3.Implies(z3.Select(a.dom, k), pyeq(z3.Select(a.val, k), z3.Select(b.val, k))),
+          patterns=[z3.Select(a.val, k), z3.Select(b.val, k)]))
+    i = z3.Int('i!ceq')
+    return z3.And(a.len == b.len, sym.forall(
+        [i], z3.Implies(z3.And(0 <= i, i < a.len), pyeq(z3.Select(a.arr, i), z3.Select(b.arr, i))),
+        patterns=[z3.Select(a.arr, i), z3.Select(b.arr, i)]))
 
   def contains(self, coll, x, node):
     if isinstance(coll, VTuple):
